@@ -695,9 +695,9 @@ inline void runC13(Ctx &c)
             // coefficients coordinate by coordinate
             {
                 MatrixXld Cref = Cst.cast<LD>();
-                c.check("C13.coeffs_vs_1d_stack", coeffError(p, C, Cref, 1e-3), 1e-10, gkey(p, "coefficients"));
+                c.check("C13.coeffs_vs_1d_stack", coeffError(p, C, Cref, 1e-3), 1e-8, gkey(p, "coefficients"));
             }
-            c.check("C13.evaluations_vs_1d_stack", wEval, 1e-10, gkey(p, "evaluation"));
+            c.check("C13.evaluations_vs_1d_stack", wEval, 1e-8, gkey(p, "evaluation"));
             double gsc = std::max(gradsMaxAbs(g), gradsMaxAbs(gs));
             {
                 // coordinate by coordinate, each against its own magnitude (coordinates may differ by many orders)
@@ -712,13 +712,13 @@ inline void runC13(Ctx &c)
                         wI = std::max(wI, relMat(g.inner.col(j), gs.inner.col(j), cs));
                     wB = std::max(wB, std::max(relMat(g.start.col(j), gs.start.col(j), cs), relMat(g.end.col(j), gs.end.col(j), cs)));
                 }
-                c.check("C13.propagated_points_vs_1d", wI, 1e-10, gkey(p, "propagated_inner"));
-                c.check("C13.propagated_boundary_vs_1d", wB, 1e-10, gkey(p, "propagated_boundary"));
+                c.check("C13.propagated_points_vs_1d", wI, 1e-8, gkey(p, "propagated_inner"));
+                c.check("C13.propagated_boundary_vs_1d", wB, 1e-8, gkey(p, "propagated_boundary"));
             }
             c.check("C13.propagated_times_is_sum", relMat(g.times, gs.times, gsTimesAbs.maxCoeff()), 1e-8, gkey(p, "propagated_times"));
             double esc = std::max(gradsMaxAbs(eg), gradsMaxAbs(egs));
-            c.check("C13.energy_grad_points_vs_1d", std::max(relMat(eg.inner, egs.inner, esc), std::max(relMat(eg.start, egs.start, esc), relMat(eg.end, egs.end, esc))), 1e-10, gkey(p, "energy_grad"));
-            c.check("C13.energy_grad_times_is_sum", relMat(eg.times, egs.times, egsTimesAbs.size() ? egsTimesAbs.maxCoeff() : 0), 1e-10, gkey(p, "energy_grad_times"));
+            c.check("C13.energy_grad_points_vs_1d", std::max(relMat(eg.inner, egs.inner, esc), std::max(relMat(eg.start, egs.start, esc), relMat(eg.end, egs.end, esc))), 1e-8, gkey(p, "energy_grad"));
+            c.check("C13.energy_grad_times_is_sum", relMat(eg.times, egs.times, egsTimesAbs.size() ? egsTimesAbs.maxCoeff() : 0), 1e-8, gkey(p, "energy_grad_times"));
             c.check("C13.energy_is_sum", scaledDiff(E, (double)Esum, (double)Eabs), 1e-9, gkey(p, "energy"));
             // one-hot: silent coordinates stay exactly zero
             if (onehot)
@@ -995,13 +995,22 @@ inline void runC14(Ctx &c)
                 ex.end *= lam;
                 ex.times *= lam * lam;
                 double w = std::max(relMat(e2.inner, ex.inner, egS * std::fabs(lam)), std::max(relMat(e2.start, ex.start, egS * std::fabs(lam)), relMat(e2.end, ex.end, egS * std::fabs(lam))));
-                w = std::max(w, relMat(e2.times, ex.times, (eg.times.size() ? eg.times.cwiseAbs().maxCoeff() : 0) * lam * lam));
+                // (duration gradients are sums that can cancel: judged against the size of their terms, not only of their value)
+                const double tminD = *std::min_element(p.T.begin(), p.T.end());
+                const double egTimesScale = std::max(eg.times.size() ? eg.times.cwiseAbs().maxCoeff() : 0.0, 1e-6 * (double)Eabs * (2 * sO - 1) / tminD);
+                w = std::max(w, relMat(e2.times, ex.times, egTimesScale * lam * lam));
                 c.check("C14.scale_data.energy_gradients" + sfx, w, tol, gkey(p, "scale_data"));
                 // propagation with the same upstream: the map is linear in the data, so point/boundary gradients are unchanged
                 Grads p2 = sq->propagate(u.gC, u.gT, false), px = pg;
                 px.times *= lam;
                 double w2 = std::max(relMat(p2.inner, px.inner, pgS), std::max(relMat(p2.start, px.start, pgS), relMat(p2.end, px.end, pgS)));
-                w2 = std::max(w2, relMat(p2.times, px.times, (pg.times.size() ? pg.times.cwiseAbs().maxCoeff() : 0) * std::fabs(lam)));
+                LD termScale = 0;
+                for (int i = 0; i < p.N; ++i)
+                    for (int k = 0; k < nc; ++k)
+                        for (int j = 0; j < p.dim; ++j)
+                            termScale += fabsl((LD)u.gC(i * nc + k, j) * (LD)C(i * nc + k, j)) * (k + 1) / (LD)p.T[i];
+                const double pgTimesScale = std::max(pg.times.size() ? pg.times.cwiseAbs().maxCoeff() : 0.0, 1e-6 * (double)termScale);
+                w2 = std::max(w2, relMat(p2.times, px.times, pgTimesScale * std::fabs(lam)));
                 c.check("C14.scale_data.propagated_gradients" + sfx, w2, tol, gkey(p, "scale_data"));
                 c.event(pow2 ? "relation.scale_data_pow2" : "relation.scale_data_real");
                 break;
@@ -1259,11 +1268,14 @@ inline void runC10(Ctx &c)
                         {
                             cur = old;
                             double eps = std::pow(10.0, -(double)r.range(6, 12));
-                            if (r.coin())
+                            const int how = r.range(0, 2);
+                            if (how == 0)
                                 for (auto &t : cur.T)
                                     t *= 1.0 + eps * r.uni(-1, 1);
-                            else
+                            else if (how == 1)
                                 cur.P(r.range(0, cur.N), r.range(0, cur.dim - 1)) += eps * (r.coin() ? 1 : -1);
+                            else // tiny compared with the norm of ALL waypoints (a relative change detector would call it "unchanged")
+                                cur.P(r.range(0, cur.N), r.range(0, cur.dim - 1)) += std::max(cur.P.norm(), 1e-300) * std::pow(10.0, -(double)r.range(13, 15)) * (r.coin() ? 1 : -1);
                         }
                         else if (k == 1)
                         {
